@@ -94,6 +94,24 @@ func (p *Prog) frameD(fr *frame, ident bool) *D {
 		}
 		return nil
 	}
+	d.AllocAt = func(a *ssa.Alloc, at ssa.Instruction) ssa.Value {
+		var last ssa.Value
+		for _, b := range fr.blocks {
+			for _, ins := range b.Instrs {
+				if ins == at {
+					return last
+				}
+				if s, ok := ins.(*ssa.Store); ok {
+					if s.Addr == a {
+						last = s.Val
+					} else if rootAlloc(s.Addr) == a {
+						last = nil // a field was written after the whole value
+					}
+				}
+			}
+		}
+		return nil
+	}
 	d.Subst = fr.subst
 	d.CallVal = func(c *ssa.Call) []string { return fr.callVals[c] }
 	return d
@@ -284,6 +302,9 @@ func (p *Prog) Paths(fn *ssa.Function) (paths []*Path, complete bool) {
 						if ((key.S == "true") == key.Pol) == false {
 							continue
 						}
+						// a constant condition (a short-circuit phi resolved on this path) says nothing
+						enter(fr, succ, b, k)
+						continue
 					}
 					if prev, ok := st.keys[key.S]; ok && prev != key.Pol {
 						continue // contradicts an atom assumed earlier on this path
@@ -416,6 +437,23 @@ func (pt *Path) ArgDesc(e Ev, i int) string {
 		}
 	}
 	return pt.Desc(v)
+}
+
+// ArgDeep is ArgDesc with single-block pure wrappers of the module rendered as
+// the expression they return.
+func (pt *Path) ArgDeep(e Ev, i int) string {
+	v := Arg(e.C, i)
+	if v == nil {
+		return "<missing>"
+	}
+	var d D
+	if e.fr != nil && e.fr.fn != pt.Fn {
+		d = *pt.p.frameD(e.fr, false)
+	} else {
+		d = *pt.dFor(v)
+	}
+	d.Deep = true
+	return d.Of(v)
 }
 
 // Count returns how many events on the path satisfy m.
@@ -626,4 +664,19 @@ func constCond(cond ssa.Value, phiVal func(*ssa.Phi) ssa.Value) (val, known bool
 		eq = !eq
 	}
 	return eq, true
+}
+
+func rootAlloc(v ssa.Value) *ssa.Alloc {
+	for {
+		switch x := v.(type) {
+		case *ssa.FieldAddr:
+			v = x.X
+		case *ssa.IndexAddr:
+			v = x.X
+		case *ssa.Alloc:
+			return x
+		default:
+			return nil
+		}
+	}
 }
